@@ -576,6 +576,10 @@ func firstPos(b *ssa.BasicBlock) token.Pos {
 func (fx *FuncCtx) loopHavoc(st *State, b *ssa.BasicBlock) {
 	body := fx.loopBody[b]
 	cells, keys, locks := fx.effectsOf(body)
+	modKeySet := map[string]bool{}
+	for _, k := range keys {
+		modKeySet[k.Key] = true
+	}
 	for _, c := range cells {
 		old, ok := st.cells[c]
 		if !ok {
@@ -596,7 +600,7 @@ func (fx *FuncCtx) loopHavoc(st *State, b *ssa.BasicBlock) {
 			var refs []string
 			ok := true
 			for _, sv := range srcs {
-				r, good := fx.resolveRef(st, sv, cells, body)
+				r, good := fx.resolveRef(st, sv, cells, body, modKeySet)
 				if !good {
 					ok = false
 					break
@@ -607,7 +611,13 @@ func (fx *FuncCtx) loopHavoc(st *State, b *ssa.BasicBlock) {
 			}
 			if ok {
 				for _, r := range refs {
-					fx.heapSet(st, k, sx("store", fx.heapGet(st.heap, k), r, fx.decls.fresh("lh$"+k.Key, innerSort(sortOf))))
+					fv := fx.decls.fresh("lh$"+k.Key, innerSort(sortOf))
+					if et, isInt := fx.intElemKeys[k.Key]; isInt {
+						fx.decls.n++
+						qt := fmt.Sprintf("q$tl!%d", fx.decls.n)
+						st.assume("(forall ((" + qt + " Int)) (! " + fx.ar.rangeFact(sx("select", fv, qt), et) + " :pattern (" + sx("select", fv, qt) + ")))")
+					}
+					fx.heapSet(st, k, sx("store", fx.heapGet(st.heap, k), r, fv))
 				}
 				continue
 			}
@@ -705,7 +715,7 @@ func (fx *FuncCtx) noteEff(key string, src ssa.Value) {
 }
 
 // resolveRef: the object reference denoted by an SSA value that is invariant in the loop
-func (fx *FuncCtx) resolveRef(st *State, v ssa.Value, modCells []ssa.Value, body map[*ssa.BasicBlock]bool) (string, bool) {
+func (fx *FuncCtx) resolveRef(st *State, v ssa.Value, modCells []ssa.Value, body map[*ssa.BasicBlock]bool, modKeys map[string]bool) (string, bool) {
 	isMod := func(c ssa.Value) bool {
 		for _, m := range modCells {
 			if m == c {
@@ -714,23 +724,44 @@ func (fx *FuncCtx) resolveRef(st *State, v ssa.Value, modCells []ssa.Value, body
 		}
 		return false
 	}
+	_, isSlice := v.Type().Underlying().(*types.Slice)
+	want := 1
+	if isSlice {
+		want = 4
+	}
 	switch x := v.(type) {
 	case *ssa.Parameter:
-		if r, ok := st.regs[x]; ok && len(r.C) == 1 {
+		if r, ok := st.regs[x]; ok && len(r.C) == want {
 			return r.C[0], true
 		}
+	case *ssa.Slice:
+		// re-slicing keeps the backing array
+		return fx.resolveRef(st, x.X, modCells, body, modKeys)
 	case *ssa.UnOp:
 		if x.Op == token.MUL {
 			switch c := x.X.(type) {
+			case *ssa.FieldAddr:
+				// field of a loop-invariant object whose (base) component is not written in the loop
+				root, path, base := fx.staticFieldPath(c)
+				ft := c.Type().Underlying().(*types.Pointer).Elem()
+				cs := fx.mode.comps(ft)
+				if len(cs) == want && base != nil {
+					k := fx.fieldKey(root, path, cs[0])
+					if !modKeys[k.Key] {
+						if ref, ok := fx.resolveRef(st, base, modCells, body, modKeys); ok {
+							return sx("select", fx.heapGet(st.heap, k), ref), true
+						}
+					}
+				}
 			case *ssa.Alloc:
 				if !fx.allocIsObject(c) && !isMod(c) {
-					if cv, ok := st.cells[c]; ok && len(cv.C) == 1 {
+					if cv, ok := st.cells[c]; ok && len(cv.C) == want {
 						return cv.C[0], true
 					}
 				}
 			case *ssa.FreeVar:
 				if !isMod(c) {
-					if cv, ok := st.cells[c]; ok && len(cv.C) == 1 {
+					if cv, ok := st.cells[c]; ok && len(cv.C) == want {
 						return cv.C[0], true
 					}
 				}
@@ -801,6 +832,7 @@ func (fx *FuncCtx) staticAddrKeys(addr ssa.Value, cellSet map[ssa.Value]bool, ke
 		for _, c := range fx.mode.comps(et) {
 			k := fx.elemKey(et, c)
 			keySet[k.Key] = k
+			fx.noteEff(k.Key, a.X)
 		}
 	case *ssa.Global:
 		t := a.Type().Underlying().(*types.Pointer).Elem()
